@@ -233,15 +233,25 @@ Fixpoint eval (fuel : nat) (lc : lifecycle) (h : handler) (st : store) (tr : lis
       end
   end.
 
-(* ---- the agent: on_start, then the top-level handlers in the order the runtime picked, then on_stop ---- *)
-Fixpoint run_all (fuel : nat) (lc : lifecycle) (hs : list handler) (st : store) (tr : list event)
+(* ---- the agent: on_start, then the top-level handlers in the order the runtime picked, then on_stop ----
+   A handler run for a lane command that fails (with an error other than a runtime error) is abandoned and
+   the agent carries on ("Incoming frame was rejected by the item"); a failure of on_start, on_stop or of a
+   suspended handler ends the agent. *)
+Inductive top := TMain (h : handler) | TCmd (h : handler).
+
+Fixpoint run_all (fuel : nat) (lc : lifecycle) (hs : list top) (st : store) (tr : list event)
   : option (outcome * store * list event) :=
   match hs with
   | [] => Some (Ok, st, tr)
-  | h :: t =>
+  | TMain h :: t =>
       match run fuel lc (init h) st tr with
       | Some (Ok, st1, tr1) => run_all fuel lc t st1 tr1
-      | ow => ow                              (* a failure stops the agent: nothing further runs *)
+      | ow => ow                              (* nothing further runs *)
+      end
+  | TCmd h :: t =>
+      match run fuel lc (init h) st tr with
+      | Some (_, st1, tr1) => run_all fuel lc t st1 tr1
+      | None => None
       end
   end.
 
@@ -285,10 +295,11 @@ Definition store0 : store := {| vals := []; maps := [] |}.
    on_stop last), whether the agent failed, and the trace it produced *)
 Record hcase := {
   hc_lc : lifecycle;
-  hc_tops : list handler;
+  hc_tops : list top;
   hc_failed : bool;
   hc_trace : list event;
-  hc_values : list (N * Z);              (* final lane values observed through a get *)
+  hc_values_after : N;                   (* the lane values below were observed after this many top-level handlers *)
+  hc_values : list (N * Z);
 }.
 
 Definition FUEL : nat := 4000.
@@ -298,18 +309,26 @@ Definition case_ok (c : hcase) : bool :=
   | Some (o, st, tr) =>
       Bool.eqb (match o with Failed => true | Ok => false end) (hc_failed c)
       && trace_eqb tr (hc_trace c)
-      && forallb (fun lv => (v_content (vget st (fst lv)) =? snd lv)%Z) (hc_values c)
+      && match run_all FUEL (hc_lc c) (firstn (N.to_nat (hc_values_after c)) (hc_tops c)) store0 [] with
+         | Some (_, st', _) => forallb (fun lv => (v_content (vget st' (fst lv)) =? snd lv)%Z) (hc_values c)
+         | None => false
+         end
   | None => false
   end.
 
 (* the same through the reference interpreter *)
-Fixpoint eval_all (fuel : nat) (lc : lifecycle) (hs : list handler) (st : store) (tr : list event) :=
+Fixpoint eval_all (fuel : nat) (lc : lifecycle) (hs : list top) (st : store) (tr : list event) :=
   match hs with
   | [] => Some (Ok, st, tr)
-  | h :: t =>
+  | TMain h :: t =>
       match eval fuel lc h st tr with
       | Some (Ok, st1, tr1) => eval_all fuel lc t st1 tr1
       | ow => ow
+      end
+  | TCmd h :: t =>
+      match eval fuel lc h st tr with
+      | Some (_, st1, tr1) => eval_all fuel lc t st1 tr1
+      | None => None
       end
   end.
 Definition case_ok_ref (c : hcase) : bool :=
